@@ -24,6 +24,7 @@ func NewLuaDecoder(prefs LuaPreferences) Decoder {
 
 func (dec *luaDecoder) Init(reader io.Reader) error {
 	dec.reader = reader
+	dec.finished = false
 	return nil
 }
 
